@@ -364,9 +364,9 @@ Definition adapter_check (s : sys) (c : nat) (v : chan) (use_conn : bool) : sys 
 
 (* Rpc._wait_for_request(uuid, adapter); returns the unused rest of the script.
    A returned message (AMQPMessageError out of the adapter's check) neither answers nor cancels
-   the request: it is held back while the wait goes on.  When the reply is in, the first held
-   error is raised (the request is forgotten, the others go back to the head of the queue); when
-   the wait fails, all of them go back and the failure is raised. *)
+   the request: it is held back while the wait goes on and put back at the head of the queue
+   when the wait ends - with the reply or with a failure - so that the operation that follows
+   reports it. *)
 Definition requeue (s : sys) (c : nat) (v : chan) (held : list err) : sys * chan :=
   match held with
   | [] => (s, v)
@@ -377,13 +377,7 @@ Fixpoint wait_rpc (sc : script) (s : sys) (c : nat) (v : chan) (u : nat) (use_co
          (held : list err) : sys * chan * res unit * script :=
   let v := cur s c v in
   match resp_get (c_resp v) u with
-  | Some (_ :: _) =>
-    match held with
-    | [] => (s, v, Ok tt, sc)
-    | h :: more =>
-      let v2 := with_rpc (with_errs v (more ++ c_errs v)) (req_del_uuid (c_req v) u) (resp_del (c_resp v) u) in
-      (upd s c v2, v2, Raise h, sc)
-    end
+  | Some (_ :: _) => let '(s3, v3) := requeue s c v held in (s3, v3, Ok tt, sc)
   | _ =>
     let '(s1, v1, r) := adapter_check s c v use_conn in
     let go (held' : list err) :=
